@@ -13,7 +13,7 @@
  *         reset through shims/shim_wipe_aes*.c).  Oracle: inside free() the block contains neither
  *         the raw key nor any round key of the FIPS-197 key schedule (engine/ref/aes_ks_ref.c), in
  *         either word byte order; the same scan on the live object just before the free call must
- *         find every round key (otherwise the scan is blind: engine error).
+ *         find every round key (otherwise the scan is blind: reported as a violation, see "Library faults").
  *  aesctr init | alloc+init2, then <= 4 (thorough 5) operations from {stream(1|15|16|17|40 bytes),
  *         init2(NULL, nonce'), init2(key', nonce'')}, then free, on both paths.  Oracle: the freed
  *         block contains neither any nonce used nor any keystream block generated (reference AES);
@@ -39,6 +39,14 @@
  * single OpenSSL allocation failure for every private value x {r#0, r = x, r#1, entropy failure} x 3 ops; keys: files of
  * <= 7 lines.  Replay records carry "deep":1 because the aesctr/dh indices then refer to the larger alphabets.
  *
+ * Library faults: whenever the code under test itself stops a history -- a constructor returns NULL or a DH call fails
+ * although the allocator and the entropy source work, the cipher output differs from the reference, the software AES
+ * path cannot be selected, or the live object does not show the key material the wipe oracle is about to search for
+ * (all-zero hash context, round keys / nonce / DH limbs not visible) -- that is a verdict about the library, not a
+ * malfunction of the harness: a violation "C20:<section>:...:<rule>" is recorded with the history's replay record
+ * and the history is abandoned (objects released unobserved).  vf_engine_error is left for the harness's own tables,
+ * replay records, the environment (OpenSSL hooks, AES-NI) and the reference self-tests.
+ *
  * Seams: -Wl,--wrap=free,strdup (frees made by libcperciva objects), CRYPTO_set_mem_functions
  * (frees made inside libcrypto), link-time replacement of crypto_entropy_read and fopen.
  *
@@ -49,6 +57,7 @@
 
 #include <errno.h>
 #include <malloc.h>
+#include <stdarg.h>
 #include <stdint.h>
 #include <stdio.h>
 #include <stdlib.h>
@@ -258,6 +267,21 @@ report(const char * sig, const char * rj, const char * what)
 	if (vf_verbose) printf("FAIL %s: %s: %s\n", sig, what, hitmsg);
 }
 
+/*
+ * The code under test stopped this history (see "Library faults" in the header): record a violation; the caller
+ * abandons the history.  Returns 1.
+ */
+static int lib_fault(const char * sig, const char * rj, const char * fmt, ...) __attribute__((format(printf, 3, 4)));
+static int
+lib_fault(const char * sig, const char * rj, const char * fmt, ...)
+{
+	char msg[700]; va_list ap;
+	va_start(ap, fmt); vsnprintf(msg, sizeof(msg), fmt, ap); va_end(ap);
+	vf_violation(sig, rj, "%s", msg);
+	if (vf_verbose) printf("FAIL %s: %s\n", sig, msg);
+	return 1;
+}
+
 /* ===================================================================== hash / HMAC contexts */
 struct halg {
 	const char * name; size_t ctxsize; int hmac;
@@ -313,13 +337,17 @@ hash_replay_json(const struct hstate * s, char * out, size_t n)
 static int
 all_zero(const uint8_t * b, size_t n) { size_t i; for (i = 0; i < n; i++) if (b[i]) return 0; return 1; }
 
-/* Finalise a copy of the context held in st; returns 1 if the context was not wiped. */
+/* Finalise a copy of the context held in st; returns 1 if the context was not wiped, 2 if it held nothing to wipe (library fault). */
 static int
 hash_final_check(const struct hstate * st)
 {
 	const struct halg * a = &HALG[st->alg]; struct hstate w = *st; uint8_t digest[32]; char rj[200], sig[64]; size_t i;
-	if (all_zero(w.ctx.b, a->ctxsize)) vf_engine_error("%s context is all zero before Final: the scan is blind", a->name);
 	hash_replay_json(st, rj, sizeof(rj)); vf_setcase("%s", rj);
+	if (all_zero(w.ctx.b, a->ctxsize)) {
+		snprintf(sig, sizeof(sig), "C20:hash:live-context-all-zero:%s", a->name);
+		lib_fault(sig, rj, "the %zu-byte %s context is all zero before %s_Final (after Init and %d updates): Init/Update did not leave the hash state in the context object, so there is nothing the wipe could be observed on", a->ctxsize, a->name, a->name, st->nupd);
+		return 2;
+	}
 	a->final(digest, w.ctx.b);
 	vf_count("hash.traces", 1);
 	if (!all_zero(w.ctx.b, a->ctxsize)) {
@@ -334,14 +362,15 @@ hash_final_check(const struct hstate * st)
 static void
 hash_succ(struct es * E, const uint8_t * s, size_t len, void * ctx)
 {
-	struct hstate st, nx; const struct halg * a; int i;
+	struct hstate st, nx; const struct halg * a; int i, fc;
 	(void)ctx; (void)len;
 	memcpy(&st, s, sizeof(st));
 	if (st.nupd == FINALISED) return;
 	a = &HALG[st.alg];
 	/* Final */
 	nx = st; nx.nupd = FINALISED; memset(nx.upd, 0, sizeof(nx.upd));
-	if (hash_final_check(&st)) nx.upd[0] = 1;
+	if ((fc = hash_final_check(&st)) == 2) return;	/* library fault: nothing is explored from this state */
+	if (fc) nx.upd[0] = 1;
 	memset(nx.ctx.b, 0, sizeof(nx.ctx.b));
 	es_emit(E, &nx, sizeof(nx));
 	/* Update(k) */
@@ -393,20 +422,25 @@ replay_hash(const char * js)
 		}
 	}
 	printf("%s_Final\n", HALG[alg].name);
-	return hash_final_check(&st);
+	return hash_final_check(&st) != 0;
 }
 
 /* ===================================================================== AES code path selection */
 static const char * const PATHNAME[2] = { "openssl", "aesni" };
 static int
-set_path(int want)	/* 0 = software (OpenSSL), 1 = AES-NI; returns 0 if selected */
+set_path(int want)	/* 0 = software (OpenSSL), 1 = AES-NI; returns 0 if selected, -1 if AES-NI is not available, -2 after a library fault (recorded) */
 {
-	int got;
+	int got; char rj[160];
 	if (want == 0) { cpusupport_x86_aesni_present_1 = 0; cpusupport_x86_aesni_init_1 = 1; }	/* "detected: absent" */
 	else { cpusupport_x86_aesni_present_1 = 0; cpusupport_x86_aesni_init_1 = 0; }			/* detect honestly */
 	verif_wipe_aes_reset(); verif_wipe_aesctr_reset();
 	got = crypto_aes_can_use_intrinsics();
-	if (want == 0 && got != 0) vf_engine_error("could not force the software AES path");
+	if (want == 0 && got != 0) {
+		/* cpusupport says "AES-NI detected: absent" and the library's selector (crypto_aes.c) still answers "use the intrinsics" */
+		snprintf(rj, sizeof(rj), "{\"sec\":\"aes\",\"tier\":%d,%s\"path\":0,\"klen\":16,\"key\":0,\"enc\":0}", vf_tier, DEEPJ);
+		lib_fault("C20:aes:path-selection:intrinsics-without-cpu-support", rj, "crypto_aes_can_use_intrinsics() returned %d although cpusupport reports AES-NI as absent: the software AES path cannot be selected (and a CPU without AES-NI would execute AES-NI instructions)", got);
+		return -2;
+	}
 	return got == want ? 0 : -1;
 }
 
@@ -438,19 +472,31 @@ aes_history(int path, int klen, int keyseed, int nenc)
 	lcg_fill(key, (size_t)klen, 500 + (uint64_t)keyseed);
 	pat_reset();
 	nr = aes_patterns(key, (size_t)klen, rk);
-	if ((k = crypto_aes_key_expand(key, (size_t)klen)) == NULL) vf_engine_error("crypto_aes_key_expand failed");
+	if ((k = crypto_aes_key_expand(key, (size_t)klen)) == NULL) {
+		snprintf(sig, sizeof(sig), "C20:aes:%s:key-expand-failed", PATHNAME[path]);
+		return lib_fault(sig, rj, "crypto_aes_key_expand(%d-byte key) returned NULL with a healthy allocator (%s path)", klen, PATHNAME[path]);
+	}
 	vf_count("aes.transitions", 1); vf_count("aes.states", 1);
 	for (i = 0; i < nenc; i++) {
 		const uint8_t * pt = i < 3 ? PT + 16 * i : INBUF + 16 * i;	/* PT holds three blocks; deep histories go on in INBUF */
 		crypto_aes_encrypt_block(pt, out, k);
 		aes_ref_encrypt(rk, nr, pt, want);
 		vf_count("aes.transitions", 1); vf_count("aes.states", 1);
-		if (memcmp(out, want, 16)) vf_engine_error("AES block differs from the reference: the reference key schedule is not the one in use (property C02 decides this)");
+		if (memcmp(out, want, 16)) {
+			/* the key schedule in use is not the FIPS-197 one the scan searches for (C02 judges the cipher itself) */
+			crypto_aes_key_free(k);
+			snprintf(sig, sizeof(sig), "C20:aes:%s:ciphertext-differs-from-reference", PATHNAME[path]);
+			return lib_fault(sig, rj, "crypto_aes_encrypt_block #%d with a %d-byte key differs from FIPS-197 (%s path): the expanded key is not the key schedule of this key, the wipe scan would search for the wrong round keys", i + 1, klen, PATHNAME[path]);
+		}
 	}
 	/* the live object must show every round key (else this scan cannot see a missing wipe) */
 	bsz = malloc_usable_size(k);
 	for (i = 0; i <= nr; i++) if (find(k, bsz, &PAT[1 + 2 * i]) || find(k, bsz, &PAT[2 + 2 * i])) found++;
-	if (found != nr + 1) vf_engine_error("only %d of %d round keys are visible in the live %zu-byte expanded key (%s path): layout not recognised, scan would be blind", found, nr + 1, bsz, PATHNAME[path]);
+	if (found != nr + 1) {
+		crypto_aes_key_free(k);
+		snprintf(sig, sizeof(sig), "C20:aes:%s:round-keys-not-in-live-key", PATHNAME[path]);
+		return lib_fault(sig, rj, "only %d of the %d FIPS-197 round keys are in the live %zu-byte object returned by crypto_aes_key_expand (%s path, %d-byte key, after %d encryptions): wrong key schedule or an object layout outside the model, the wipe cannot be observed", found, nr + 1, bsz, PATHNAME[path], klen, nenc);
+	}
 	vf_count("aes.roundkeys_seen_live", (uint64_t)found);
 	watch_ptr = k; armed = 1;
 	crypto_aes_key_free(k);
@@ -467,7 +513,8 @@ static void
 unit_aes(uint64_t u)
 {
 	int path = (int)(u / (uint64_t)(2 * nkeys())), klen = (u / (uint64_t)nkeys()) % 2 ? 32 : 16, seed = (int)(u % (uint64_t)nkeys()), n;
-	if (set_path(path)) { vf_count("aes.aesni_unavailable", 1); return; }
+	if ((n = set_path(path)) == -2) return;	/* library fault, recorded */
+	if (n) { vf_count("aes.aesni_unavailable", 1); return; }
 	for (n = 0; n <= maxenc(); n++) aes_history(path, klen, seed, n);
 	if (seed == 0) vf_sample("aes %s %d-byte key: expand, 0..%d encryptions, free -> all %d round keys visible before, none inside free()", PATHNAME[path], klen, maxenc(), klen == 16 ? 11 : 15);
 }
@@ -495,13 +542,21 @@ ctr_history(int path, int klen, int start, int nonceseed, const int * ops, int n
 	snprintf(rj + o, sizeof(rj) - o, "]}");
 	vf_setcase("%s", rj);
 	pat_reset();
-	for (i = 0; i < 2; i++) { lcg_fill(K[i], (size_t)klen, 600 + (uint64_t)i); nr[i] = aes_ref_expand(K[i], (size_t)klen, rk[i]); if ((k[i] = crypto_aes_key_expand(K[i], (size_t)klen)) == NULL) vf_engine_error("expand failed"); }
+	k[0] = k[1] = NULL; s = NULL;
+	/* library fault (header): record it, release what exists unobserved (armed == 0), abandon the history */
+#define CTR_FAULT(rule, ...) do { snprintf(sig, sizeof(sig), "C20:aesctr:%s:" rule, PATHNAME[path]); lib_fault(sig, rj, __VA_ARGS__); \
+		if (s != NULL) crypto_aesctr_free(s); if (k[0] != NULL) crypto_aes_key_free(k[0]); if (k[1] != NULL) crypto_aes_key_free(k[1]); return 1; } while (0)
+	for (i = 0; i < 2; i++) {
+		lcg_fill(K[i], (size_t)klen, 600 + (uint64_t)i); nr[i] = aes_ref_expand(K[i], (size_t)klen, rk[i]);
+		if ((k[i] = crypto_aes_key_expand(K[i], (size_t)klen)) == NULL)
+			CTR_FAULT("key-expand-failed", "crypto_aes_key_expand(%d-byte key #%d) returned NULL with a healthy allocator (%s path)", klen, i, PATHNAME[path]);
+	}
 	for (i = 0; i < 3; i++) { lcg_fill(nb, 8, 700 + (uint64_t)(3 * nonceseed + i)); nonce[i] = 0; for (j = 0; j < 8; j++) nonce[i] = nonce[i] << 8 | nb[j]; }
 	curnonce = nonce[0];
 	be64(nb, curnonce); if (distinct_bytes(nb, 8) >= 5) pat_add(nb, 8, 0, CLS_NONCE, "nonce", 0);
 	if (start == 0) s = crypto_aesctr_init(k[0], curnonce);
 	else { s = crypto_aesctr_alloc(); if (s) crypto_aesctr_init2(s, k[0], curnonce); }
-	if (s == NULL) vf_engine_error("crypto_aesctr_init failed");
+	if (s == NULL) CTR_FAULT("init-failed", "%s returned NULL with a healthy allocator (%s path)", start == 0 ? "crypto_aesctr_init" : "crypto_aesctr_alloc", PATHNAME[path]);
 	vf_count("ctr.transitions", 1); vf_count("ctr.states", 1);
 	for (i = 0; i < nops; i++) {
 		if (ops[i] < nstream()) {
@@ -516,7 +571,8 @@ ctr_history(int path, int klen, int start, int nonceseed, const int * ops, int n
 				want[j] = INBUF[(bytectr + (uint64_t)j) % 256] ^ ks[pos % 16];
 			}
 			crypto_aesctr_stream(s, INBUF + bytectr % 256, out, (size_t)L);
-			if (memcmp(out, want, (size_t)L)) vf_engine_error("AES-CTR output differs from the reference keystream (property C02 decides this); %s", rj);
+			if (memcmp(out, want, (size_t)L))	/* the keystream in use is not the one the scan searches for (C02 judges the cipher itself) */
+				CTR_FAULT("keystream-differs-from-reference", "crypto_aesctr_stream of %d bytes at stream position %llu (operation %d of the history) differs from the reference AES-CTR keystream (%s path): the wipe scan would search for the wrong keystream blocks", L, (unsigned long long)bytectr, i + 1, PATHNAME[path]);
 			bytectr += (uint64_t)L;
 		} else {
 			int which = ops[i] - nstream();	/* 0: keep key, nonce B; 1: key2, nonce C */
@@ -528,10 +584,11 @@ ctr_history(int path, int klen, int start, int nonceseed, const int * ops, int n
 		vf_count("ctr.transitions", 1); vf_count("ctr.states", 1);
 	}
 	/* live pre-scan: the current nonce is in the object; a keystream block may be */
-	bsz = verif_wipe_aesctr_size(); if (malloc_usable_size(s) < bsz) vf_engine_error("stream object smaller than its type");
+	bsz = verif_wipe_aesctr_size();
+	if (malloc_usable_size(s) < bsz) CTR_FAULT("object-smaller-than-type", "the stream object is a %zu-byte block, struct crypto_aesctr has %zu bytes (%s path)", malloc_usable_size(s), bsz, PATHNAME[path]);
 	bsz = malloc_usable_size(s);
 	be64(nb, curnonce);
-	if (memmem(s, bsz, nb, 8) == NULL) vf_engine_error("current nonce not visible in the live stream object: scan would be blind");
+	if (memmem(s, bsz, nb, 8) == NULL) CTR_FAULT("nonce-not-in-live-object", "the nonce of the last init/init2 is not in the live %zu-byte stream object after %d operations (%s path): init2 did not store it or the object layout is outside the model, the wipe cannot be observed", bsz, nops, PATHNAME[path]);
 	for (i = 0; i < npat; i++) if (PAT[i].cls == CLS_KEYSTREAM && find(s, bsz, &PAT[i])) ksseen = 1;
 	vf_count("ctr.nonce_seen_live", 1); if (ksseen) vf_count(path ? "ctr.keystream_seen_live.aesni" : "ctr.keystream_seen_live.openssl", 1);
 	watch_ptr = s; armed = 1;
@@ -543,6 +600,7 @@ ctr_history(int path, int klen, int start, int nonceseed, const int * ops, int n
 	if (vf_verbose) printf("aesctr %s: %d operations then free: block %s, keystream visible before free: %d, %d hits\n", PATHNAME[path], nops, watch_freed ? "seen in free()" : "NOT freed", ksseen, hits);
 	crypto_aes_key_free(k[0]); crypto_aes_key_free(k[1]);
 	return bad;
+#undef CTR_FAULT
 }
 static void
 ctr_rec(int path, int klen, int start, int nonceseed, int * ops, int nops)
@@ -556,10 +614,11 @@ ctr_rec(int path, int klen, int start, int nonceseed, int * ops, int nops)
 static void
 unit_ctr(uint64_t u)
 {
-	int first = (int)(u % (uint64_t)(nctrops() + 1)), nonceseed, start, klen, path, ops[8];
+	int first = (int)(u % (uint64_t)(nctrops() + 1)), nonceseed, start, klen, path, ops[8], sp;
 	u /= (uint64_t)(nctrops() + 1);
 	nonceseed = (int)(u % 2); u /= 2; start = (int)(u % 2); u /= 2; klen = (u % 2) ? 32 : 16; path = (int)(u / 2);
-	if (set_path(path)) { vf_count("ctr.aesni_unavailable", 1); return; }
+	if ((sp = set_path(path)) == -2) return;	/* library fault, recorded */
+	if (sp) { vf_count("ctr.aesni_unavailable", 1); return; }
 	if (first == nctrops()) { ctr_history(path, klen, start, nonceseed, ops, 0); return; }
 	ops[0] = first;
 	ctr_rec(path, klen, start, nonceseed, ops, 1);
@@ -625,8 +684,9 @@ limb_patterns(const uint8_t v[32], int live, int cls, const char * name, const u
 /*
  * One call. op 0: generate_pub(x), 1: compute(y, x), 2: generate() with the entropy source delivering x then r.
  * ri == ndhr: entropy failure (op 2: of the second read).  failk > 0: the failk-th OpenSSL allocation fails.
- * Returns 1 on violation; *nallocs receives the number of OpenSSL allocations made by the call.
+ * Returns 1 on violation; *nallocs receives the number of OpenSSL allocations made by the call, dh_last_rc what it returned.
  */
+static int dh_last_rc;
 static int
 dh_call(int op, int xi, int ri, int yi, long failk, long * nallocs)
 {
@@ -655,7 +715,7 @@ dh_call(int op, int xi, int ri, int yi, long failk, long * nallocs)
 	if (op == 0) rc = crypto_dh_generate_pub(out, x);
 	else if (op == 1) rc = crypto_dh_compute(y, x, out);
 	else rc = crypto_dh_generate(out, priv);
-	armed = 0; fail_at = 0;
+	armed = 0; fail_at = 0; dh_last_rc = rc;
 	if (nallocs) *nallocs = ossl_allocs;
 	vf_count("dh.traces", 1); vf_count("dh.transitions", (uint64_t)ossl_events); vf_count("dh.states", (uint64_t)ossl_events + 1);
 	vf_count(rc ? "dh.calls_failed" : "dh.calls_succeeded", 1);
@@ -668,7 +728,15 @@ dh_call(int op, int xi, int ri, int yi, long failk, long * nallocs)
 	if (failk == 0 && !bad) {
 		int unseen = 0;
 		for (i = 0; i < npat; i++) if (PAT[i].expect_live && !PAT[i].seen_live) unseen++;
-		if (unseen) vf_engine_error("%d of the searched limbs were never visible in a live OpenSSL block during %s: the allocator seam is blind (%s)", unseen, OPN[op], rj);
+		if (unseen) {
+			/* library fault (header): the call did not hold the values in OpenSSL bignums, so there was no wipe to observe */
+			if (rc != (rfail ? -1 : 0)) {
+				snprintf(sig, sizeof(sig), "C20:dh:%s:unexpected-failure", OPN[op]);
+				return lib_fault(sig, rj, "crypto_dh_%s returned %d although the allocator and the entropy source worked (%ld OpenSSL allocator events; %d of the searched limbs of x, r, x-r were never in a live OpenSSL block)", OPN[op], rc, ossl_events, unseen);
+			}
+			snprintf(sig, sizeof(sig), "C20:dh:%s:secret-not-seen-live", OPN[op]);
+			return lib_fault(sig, rj, "crypto_dh_%s returned %d but %d of the searched 64-bit limbs of the private value, the blinding value and the blinded exponent x-r were never in a live OpenSSL block during the call (%ld allocator events): the computation is not the blinded exponentiation the wipe oracle follows, nothing to observe", OPN[op], rc, unseen, ossl_events);
+		}
 		vf_count("dh.limbs_seen_live", (uint64_t)(nx + nr_ + nd));
 	}
 	if (vf_verbose) printf("dh %s rc=%d: %ld allocator events, %d/%d/%d searchable limbs (x/r/x-r), %d hits%s\n", OPN[op], rc, ossl_events, nx, nr_, nd, hits, hits ? hitmsg : "");
@@ -771,6 +839,38 @@ unit_keys(uint64_t u)
 	if (first == L_SA) vf_sample("aws_readkeys: every file of <=%d lines starting with the secret line, ending in %s: failing reads free the secret's block wiped", maxlines(), err ? "a read error" : "EOF");
 }
 
+/* ===================================================================== DH calls made outside the worker pool */
+/*
+ * The warm-up call and the allocation-count probe are library calls too: they run in a child of their own first
+ * (vf_run_isolated), so that a crash or a failure inside crypto_dh.c becomes a violation with a replay record
+ * instead of killing the coordinating process.
+ */
+struct dhguard { int stage, rc[4], bad[4]; long nallocs[3]; };	/* in shared memory; stage: call in progress (0 = warm-up, 1..3 = probe of op 0..2) */
+static void
+dh_warmup_child(void * arg)
+{
+	struct dhguard * g = arg; uint8_t o[256];
+	g->stage = 0; g->rc[0] = -99;
+	memset(&ent, 0, sizeof(ent)); ent.n = 1; lcg_fill(ent.data[0], 32, 1);
+	g->rc[0] = crypto_dh_generate_pub(o, DHX[0]);
+}
+static void
+dh_probe_child(void * arg)
+{
+	struct dhguard * g = arg; int op;
+	for (op = 0; op < 3; op++) { g->stage = 1 + op; g->bad[1 + op] = dh_call(op, 0, 0, 0, 0, &g->nallocs[op]); g->rc[1 + op] = dh_last_rc; }
+	g->stage = 4;
+}
+/* Violation for a DH call that died / failed in one of the two children.  op: the crypto_dh operation (0..2). */
+static void
+dh_guard_report(const char * crashsig, int op, const char * what, const char * text, int rc)
+{
+	static const char * const OPN[3] = { "generate_pub", "compute", "generate" }; char rj[200], sig[128];
+	snprintf(rj, sizeof(rj), "{\"sec\":\"dh\",\"tier\":%d,%s\"op\":%d,\"x\":0,\"r\":0,\"y\":0,\"fail\":0}", vf_tier, DEEPJ, op);
+	if (crashsig != NULL && crashsig[0]) lib_fault(crashsig, rj, "crypto_dh_%s died in the %s (no allocation or entropy failure injected): %.600s", OPN[op], what, text);
+	else { snprintf(sig, sizeof(sig), "C20:dh:%s:unexpected-failure", OPN[op]); lib_fault(sig, rj, "crypto_dh_%s returned %d in the %s although the allocator and the entropy source worked", OPN[op], rc, what); }
+}
+
 /* ===================================================================== replay and main */
 static int
 jint(const char * js, const char * key, int dflt)
@@ -804,8 +904,8 @@ do_replay(const char * js)
 {
 	int l[8], n;
 	if (strstr(js, "\"sec\":\"hash\"")) return replay_hash(js);
-	if (strstr(js, "\"sec\":\"aes\"")) { if (set_path(jint(js, "path", 0))) vf_engine_error("AES-NI not available"); return aes_history(jint(js, "path", 0), jint(js, "klen", 16), jint(js, "key", 0), jint(js, "enc", 0)); }
-	if (strstr(js, "\"sec\":\"ctr\"")) { if (set_path(jint(js, "path", 0))) vf_engine_error("AES-NI not available"); n = jlist(js, "ops", l, 8); return ctr_history(jint(js, "path", 0), jint(js, "klen", 16), jint(js, "start", 0), jint(js, "nonce", 0), l, n); }
+	if (strstr(js, "\"sec\":\"aes\"")) { if ((n = set_path(jint(js, "path", 0))) == -2) return 1; if (n) vf_engine_error("AES-NI not available"); return aes_history(jint(js, "path", 0), jint(js, "klen", 16), jint(js, "key", 0), jint(js, "enc", 0)); }
+	if (strstr(js, "\"sec\":\"ctr\"")) { if ((n = set_path(jint(js, "path", 0))) == -2) return 1; if (n) vf_engine_error("AES-NI not available"); n = jlist(js, "ops", l, 8); return ctr_history(jint(js, "path", 0), jint(js, "klen", 16), jint(js, "start", 0), jint(js, "nonce", 0), l, n); }
 	if (strstr(js, "\"sec\":\"dh\"")) return dh_call(jint(js, "op", 0), jint(js, "x", 0), jint(js, "r", 0), jint(js, "y", 0), jint(js, "fail", 0), NULL);
 	if (strstr(js, "\"sec\":\"keys\"")) { n = jlist(js, "lines", l, 8); return keys_history(l, n, jint(js, "end", 0)); }
 	vf_engine_error("replay: unknown section");
@@ -814,7 +914,7 @@ do_replay(const char * js)
 int
 main(int argc, char ** argv)
 {
-	int i, st, hooks;
+	int i, st, hooks, dh_broken = 0; struct dhguard * G; char csig[200], ctext[8192];
 	/* before anything can make OpenSSL allocate */
 	hooks = CRYPTO_set_mem_functions(ossl_malloc, ossl_realloc, ossl_free);
 	vf_init(&argc, argv, "h_wipe");
@@ -833,7 +933,15 @@ main(int argc, char ** argv)
 	 * which worker process happens to make the first call.
 	 */
 	OPENSSL_init_crypto(OPENSSL_INIT_LOAD_CRYPTO_STRINGS, NULL); ERR_clear_error();
-	{ uint8_t o[256]; memset(&ent, 0, sizeof(ent)); ent.n = 1; lcg_fill(ent.data[0], 32, 1); if (crypto_dh_generate_pub(o, DHX[0])) vf_engine_error("warm-up crypto_dh_generate_pub failed"); }
+	G = vf_shalloc(sizeof(*G)); memset(G, 0, sizeof(*G));
+	if (vf_replay == NULL || strstr(vf_replay, "\"sec\":\"dh\"") != NULL) {
+		/* the same call in a child first: a crash or a failure in crypto_dh.c is a verdict about the library */
+		st = vf_run_isolated(dh_warmup_child, G, csig, sizeof(csig), ctext, sizeof(ctext));
+		if (!(WIFEXITED(st) && WEXITSTATUS(st) == 0)) { dh_guard_report(csig, 0, "warm-up call", ctext, 0); dh_broken = 1; }
+		else if (G->rc[0] != 0) { dh_guard_report(NULL, 0, "warm-up call", "", G->rc[0]); dh_broken = 1; }
+		if (dh_broken && vf_replay != NULL) { printf("replay: property violated\n"); vf_finish(); return 1; }
+	}
+	if (!dh_broken) { uint8_t o[256]; memset(&ent, 0, sizeof(ent)); ent.n = 1; lcg_fill(ent.data[0], 32, 1); (void)crypto_dh_generate_pub(o, DHX[0]); }
 	memcpy(PUB[0], crypto_dh_group14, 256); reverse(PUB[1], crypto_dh_group14, 256);
 	vf_info("bounds", "hash: 6 algorithms, <=%d updates from %d lengths, 5 HMAC key lengths; aes: 2 paths x {16,32} x %d keys x 0..%d encryptions; aesctr: 2 paths x {16,32} x 2 starts x 2 nonce sets x <=%d ops from %d; "
 	    "dh: 3 ops x %d private x %d blinding (+failure) x %d peers, + every single OpenSSL allocation failure for %d private values x %s x 3 ops; keys: files of <=%d lines from %d kinds x {EOF, read error}",
@@ -853,19 +961,27 @@ main(int argc, char ** argv)
 	vf_parallel((uint64_t)(2 * 2 * 2 * 2 * (nctrops() + 1)), unit_ctr);
 	if (!vf_deadline_hit()) vf_setmax("ctr.exhaustive", 1);
 	/* allocation counts of the fault-free calls, for the fault enumeration */
-	{ long * sh = vf_shalloc(3 * sizeof(long)), mx; pid_t pid; int status;
-	  fflush(stdout);
-	  if ((pid = fork()) == 0) { dh_call(0, 0, 0, 0, 0, &sh[0]); dh_call(1, 0, 0, 0, 0, &sh[1]); dh_call(2, 0, 0, 0, 0, &sh[2]); _exit(0); }
-	  if (pid < 0 || waitpid(pid, &status, 0) < 0 || !WIFEXITED(status) || WEXITSTATUS(status)) vf_engine_error("DH probe run failed");
-	  dh_nallocs[0] = sh[0]; dh_nallocs[1] = sh[1]; dh_nallocs[2] = sh[2];
-	  if (dh_nallocs[0] < 10 || dh_nallocs[1] < 10 || dh_nallocs[2] < 10) vf_engine_error("DH made only %ld/%ld/%ld OpenSSL allocations: hooks not in effect", dh_nallocs[0], dh_nallocs[1], dh_nallocs[2]);
-	  vf_info("dh_allocations", "generate_pub %ld, compute %ld, generate %ld OpenSSL allocations per call", dh_nallocs[0], dh_nallocs[1], dh_nallocs[2]);
-	  mx = dh_nallocs[0]; if (dh_nallocs[1] > mx) mx = dh_nallocs[1]; if (dh_nallocs[2] > mx) mx = dh_nallocs[2];
-	  dh_maxallocs = mx + 4;
+	if (!dh_broken) { long mx;
+	  /* (an engine error inside the child is still an engine error: vf_run_isolated passes it on) */
+	  st = vf_run_isolated(dh_probe_child, G, csig, sizeof(csig), ctext, sizeof(ctext));
+	  if (!(WIFEXITED(st) && WEXITSTATUS(st) == 0)) { dh_guard_report(csig, G->stage >= 1 && G->stage <= 3 ? G->stage - 1 : 0, "allocation-count probe (x#0, r#0, y#0)", ctext, 0); dh_broken = 1; }
+	  dh_nallocs[0] = G->nallocs[0]; dh_nallocs[1] = G->nallocs[1]; dh_nallocs[2] = G->nallocs[2];
+	  if (!dh_broken && (dh_nallocs[0] < 10 || dh_nallocs[1] < 10 || dh_nallocs[2] < 10)) {
+		/* a call that gave up at once was reported by dh_call (C20:dh:<op>:unexpected-failure / secret-not-seen-live); otherwise the seam is at fault */
+		for (i = 0; i < 3; i++) if (dh_nallocs[i] < 10 && !G->bad[1 + i]) vf_engine_error("DH made only %ld/%ld/%ld OpenSSL allocations: hooks not in effect", dh_nallocs[0], dh_nallocs[1], dh_nallocs[2]);
+		dh_broken = 1;
+	  }
+	  if (!dh_broken) {
+		vf_info("dh_allocations", "generate_pub %ld, compute %ld, generate %ld OpenSSL allocations per call", dh_nallocs[0], dh_nallocs[1], dh_nallocs[2]);
+		mx = dh_nallocs[0]; if (dh_nallocs[1] > mx) mx = dh_nallocs[1]; if (dh_nallocs[2] > mx) mx = dh_nallocs[2];
+		dh_maxallocs = mx + 4;
+	  }
 	}
-	vf_parallel((uint64_t)(3 * ndhx * (ndhr + 1) * ndhy), unit_dh);
-	vf_parallel((uint64_t)(3 * nfaultx() * nfaultr()) * (uint64_t)dh_maxallocs, unit_dh_fault);
-	if (!vf_deadline_hit()) vf_setmax("dh.exhaustive", 1);
+	if (!dh_broken) {
+		vf_parallel((uint64_t)(3 * ndhx * (ndhr + 1) * ndhy), unit_dh);
+		vf_parallel((uint64_t)(3 * nfaultx() * nfaultr()) * (uint64_t)dh_maxallocs, unit_dh_fault);
+		if (!vf_deadline_hit()) vf_setmax("dh.exhaustive", 1);
+	} else vf_info("dh_skipped", "the DH histories were not explored: a fault-free crypto_dh call died or failed before the enumeration (see the violation)");
 	vf_parallel((uint64_t)(2 * (nlines + 1)), unit_keys);
 	if (!vf_deadline_hit()) vf_setmax("keys.exhaustive", 1);
 
